@@ -19,6 +19,8 @@ def hexVal (c : Char) : Nat :=
   if c.isDigit then c.toNat - '0'.toNat else if 'a' ≤ c ∧ c ≤ 'f' then c.toNat - 'a'.toNat + 10
   else if 'A' ≤ c ∧ c ≤ 'F' then c.toNat - 'A'.toNat + 10 else 0
 def pctDecode : List Char → List Char
+  | '%' :: 'u' :: a :: b :: c :: d :: e :: f :: r =>      -- code points above 255: `%uXXXXXX`
+    Char.ofNat (((((hexVal a * 16 + hexVal b) * 16 + hexVal c) * 16 + hexVal d) * 16 + hexVal e) * 16 + hexVal f) :: pctDecode r
   | '%' :: a :: b :: r => Char.ofNat (16 * hexVal a + hexVal b) :: pctDecode r
   | '%' :: _ => []
   | c :: r => c :: pctDecode r
@@ -29,7 +31,10 @@ def hexDigit (n : Nat) : Char := if n < 10 then Char.ofNat ('0'.toNat + n) else 
 def pct (s : String) : String :=
   if s.isEmpty then "%" else
   String.ofList (s.toList.flatMap fun c =>
-    if (c.isAlphanum && c.toNat < 128) || c == '_' then [c] else ['%', hexDigit (c.toNat / 16 % 16), hexDigit (c.toNat % 16)])
+    if (c.isAlphanum && c.toNat < 128) || c == '_' then [c]
+    else if c.toNat < 256 then ['%', hexDigit (c.toNat / 16 % 16), hexDigit (c.toNat % 16)]
+    else ['%', 'u', hexDigit (c.toNat / 1048576 % 16), hexDigit (c.toNat / 65536 % 16), hexDigit (c.toNat / 4096 % 16),
+          hexDigit (c.toNat / 256 % 16), hexDigit (c.toNat / 16 % 16), hexDigit (c.toNat % 16)])
 
 abbrev Toks := List String
 
